@@ -18,7 +18,6 @@ import (
 	"strconv"
 	"strings"
 	"sync"
-	"sync/atomic"
 	"time"
 	_ "unsafe"
 
@@ -570,6 +569,10 @@ func historyPool() []*source {
 		prog("big-const", "const k = 1 << 70\n\nfunc main() {\n\tvar f float64 = k\n\tprintln(f, k>>69)\n}\n"),
 		prog("undefined", "func main() {\n\tprintln(nope)\n}\n"),
 		tmpl("tmpl-bool", "{% type Flag bool %}{% var f Flag = true %}{{ f }}{% x := true %}{{ x }}"),
+		tmpl("tmpl-js-types", "<script>var a = {{ 1 }}, b = {{ \"s\" }}, c = {{ []int{1} }}, d = {{ map[string]int{\"k\": 1} }}, e = {{ 2.5 }}, f = {{ []string{\"x\"} }}, g = {{ true }};</script><script type=\"application/ld+json\">{{ map[string][]int{\"k\": {1}} }}</script><style>a{b:{{ 3 }}}</style><a href=\"{{ \"u\" }}\" title=\"{{ 4 }}\">{{ []byte(\"x\") }}</a>"),
+		tmpl("tmpl-registers", "{% a, b, c := 42, \"hello world\", 2.5 %}{% var d interface{} = []int{1} %}{{ a }}{{ b }}{{ c }}{{ d }}"),
+		tmpl("tmpl-recover", "{% f := func() (int, string) {\n defer func() { recover() }()\n panic(\"x\")\n} %}{% n, s := f() %}quotient={{ n }} status={{ s }}"),
+		prog("recover-results", "func f() (int, string) {\n\tdefer func() { recover() }()\n\tpanic(\"x\")\n}\n\nfunc main() {\n\tn, s := f()\n\tprintln(n, s)\n}\n"),
 		tmpl("tmpl-plain", "{% x := true %}{% var i interface{} = x %}{% _, ok := i.(bool) %}{{ ok }}{{ title }}{{ g01 }}"),
 	}
 }
@@ -611,35 +614,49 @@ func raceFrame(out string) string {
 
 // raceCompanion is the body of `C30race --race-companion i`.
 func raceCompanion(first int) {
-	srcs := synthetic()
-	base := make([]string, len(srcs))
-	for k, s := range srcs {
-		fp, err := build(s)
-		if err != nil {
-			fmt.Fprintln(os.Stderr, "C30: own source does not build:", err)
-			os.Exit(2)
-		}
-		base[k] = fp
+	// The concurrent builds come FIRST, in a process that has built nothing yet:
+	// state that the compiler builds lazily and keeps for the process (caches,
+	// interned types, tables) is then written by several builds at once. The
+	// sequential reference builds are made afterwards.
+	srcs := append(synthetic(), historyPool()...)
+	type res struct {
+		k   int
+		fp  string
+		err error
 	}
 	var wg sync.WaitGroup
-	var bad atomic.Value
+	results := make([][]res, 8)
 	for g := 0; g < 8; g++ {
 		wg.Add(1)
 		go func(g int) {
 			defer wg.Done()
 			for r := 0; r < 6; r++ {
-				k := (first + g + r) % len(srcs)
+				k := (first + g/2 + r*3) % len(srcs) // goroutines work in pairs on the same source
 				fp, err := build(srcs[k])
-				if err != nil || fp != base[k] {
-					bad.Store(fmt.Sprintf("C30-RACE-COMPANION-DIFF source %s: err=%v\n%s", srcs[k].name, err, firstDiff(base[k], fp)))
-				}
+				results[g] = append(results[g], res{k, fp, err})
 			}
 		}(g)
 	}
 	wg.Wait()
-	if v := bad.Load(); v != nil {
-		fmt.Fprintln(os.Stderr, v)
-		os.Exit(3)
+	base := make([]string, len(srcs))
+	for k, s := range srcs {
+		fp, err := build(s)
+		if err != nil {
+			fp = "BUILD ERROR: " + err.Error()
+		}
+		base[k] = fp
+	}
+	for _, rs := range results {
+		for _, r := range rs {
+			fp := r.fp
+			if r.err != nil {
+				fp = "BUILD ERROR: " + r.err.Error()
+			}
+			if fp != base[r.k] {
+				fmt.Fprintf(os.Stderr, "C30-RACE-COMPANION-DIFF source %s:\n%s\n", srcs[r.k].name, firstDiff(base[r.k], fp))
+				os.Exit(3)
+			}
+		}
 	}
 }
 
